@@ -347,17 +347,29 @@ def incoq_crosscheck(lines, ml_out, limit=120):
         f = l.split(' ')
         args = [f[0].encode('latin-1')] + [unhx(x) for x in f[1:]]
         items.append('(%s, %s)' % ('[' + ';'.join(blist(a) for a in args) + ']', blist(o.encode('latin-1'))))
-    src = ('From GFS Require Import Base Driver.\n'
-           'Definition cases : list (list bytes * bytes) := [\n%s].\n'
-           'Definition mism : nat := List.length (filter (fun c => negb (beq (dispatch (fst c)) (snd c))) cases).\n'
-           'Definition M := Eval vm_compute in mism.\nPrint M.\n') % ';\n'.join(items)
-    d = tempfile.mkdtemp(prefix='xchk.', dir=WORK)
-    try:
-        open(d + '/xchk.v', 'w').write(src)
-        rc, out = sh('cd %s && timeout 600 coqc -Q %s/theories GFS xchk.v' % (d, COQ))
-    finally:
-        shutil.rmtree(d, ignore_errors=True)
-    m = re.search(r'M = (\d+)', out)
-    if rc != 0 or not m:
-        return len(pick), -1, 'in-Coq evaluation failed: ' + out[-400:]
-    return len(pick), int(m.group(1)), ''
+    def one_chunk(chunk):
+        src = ('From GFS Require Import Base Driver.\n'
+               'Definition cases : list (list bytes * bytes) := [\n%s].\n'
+               'Definition mism : nat := List.length (filter (fun c => negb (beq (dispatch (fst c)) (snd c))) cases).\n'
+               'Definition M := Eval vm_compute in mism.\nPrint M.\n') % ';\n'.join(chunk)
+        d = tempfile.mkdtemp(prefix='xchk.', dir=WORK)
+        try:
+            open(d + '/xchk.v', 'w').write(src)
+            rc, out = sh('cd %s && ulimit -v 12000000; timeout 240 coqc -Q %s/theories GFS xchk.v' % (d, COQ))
+        finally:
+            shutil.rmtree(d, ignore_errors=True)
+        m = re.search(r'M = (\d+)', out)
+        if rc == 124 or 'Out of memory' in out or 'Stack overflow' in out:
+            return len(chunk), None, ''           # too expensive to evaluate inside Coq: not evaluated, not a mismatch
+        if rc != 0 or not m:
+            return len(chunk), -1, 'in-Coq evaluation failed: ' + out[-400:]
+        return len(chunk), int(m.group(1)), ''
+    chunks = [items[i:i + 40] for i in range(0, len(items), 40)]
+    import concurrent.futures
+    with concurrent.futures.ThreadPoolExecutor(max_workers=4) as ex:
+        res = list(ex.map(one_chunk, chunks))
+    done = sum(n for n, bad, _ in res if bad is not None)
+    for n, bad, msg in res:
+        if bad == -1:
+            return done, -1, msg
+    return done, sum(bad for n, bad, _ in res if bad), ''
